@@ -39,24 +39,39 @@ Proof.
   intros H. destruct (has_crash l) eqn:E; [|reflexivity]. exfalso. apply (crash_panics c w l s E H).
 Qed.
 
-(* what a well-shaped, balanced list of effects does to the two quantities *)
+(* A weight the conservation argument applies to: stable, zero on the markers partition workers create,
+   non-negative.  (Data-only weights are of this kind; so is "carries the shutdown bit".)  What such a
+   weight loses in a step is what the consumed markers weighed: nothing for a data-only weight. *)
+Definition okw (f : msg -> Z) : Prop := stable f /\ nonneg f.
+(* what the markers created in a step weigh: nothing for a weight that vanishes on syn/fin markers *)
+Definition new_ok (f : msg -> Z) (n : Z) : Prop := 0 <= n /\ (marker_free f -> n = 0).
+Lemma new_ok_0 f : new_ok f 0. Proof. split; [lia|reflexivity]. Qed.
+Lemma new_ok_add f a b : new_ok f a -> new_ok f b -> new_ok f (a + b).
+Proof. intros [A1 A2] [B1 B2]. split; [lia|]. intros H. rewrite (A2 H), (B2 H). reflexivity. Qed.
+Definition sunk_ok (f : msg -> Z) (k : Z) : Prop := 0 <= k /\ (data_only f -> k = 0).
+Lemma sunk_ok_0 f : sunk_ok f 0. Proof. split; [lia|reflexivity]. Qed.
+Lemma sunk_ok_add f a b : sunk_ok f a -> sunk_ok f b -> sunk_ok f (a + b).
+Proof. intros [A1 A2] [B1 B2]. split; [lia|]. intros H. rewrite (A2 H), (B2 H). reflexivity. Qed.
+Lemma sunk_ok_effs f d l : nonneg f -> sh d l = true -> sunk_ok f (esum (eff_sink f) l).
+Proof. intros Hn Hs. split; [apply sh_sink_nonneg, Hn|]. intros Hd. eapply sh_sink_data; eassumption. Qed.
+Lemma new_nonneg f l : nonneg f -> 0 <= esum (eff_new f) l.
+Proof. intros Hn. induction l as [|e l IH]; [cbn; lia|]. rewrite esum_cons. destruct e; cbn [eff_new]; try lia. specialize (Hn m). lia. Qed.
+Lemma new_ok_effs f d l : nonneg f -> sh d l = true -> new_ok f (esum (eff_new f) l).
+Proof. intros Hn Hs. split; [apply new_nonneg, Hn|]. intros Hm. eapply sh_new; eassumption. Qed.
+
+(* what a well-shaped list of effects does to the two quantities *)
 Lemma effs_delta c w s l d net1 : g_panic (apply_effs c w s l) = None -> sh d l = true ->
   esum (eff_net f1) l = net1 ->
-  (forall f, stable f -> data_only f ->
-     cons_q f (apply_effs c w s l) = cons_q f s + esum (eff_net f) l) /\
+  (forall f,
+     cons_q f (apply_effs c w s l) = cons_q f s + esum (eff_net f) l - esum (eff_sink f) l + esum (eff_new f) l) /\
   infl_q (apply_effs c w s l) = infl_q s - net1 + esum eff_ra l.
 Proof.
   intros H Hs Hn. destruct (apply_effs_spec c w l s H) as (A & B & C & (_ & D & _)).
   split.
-  - intros f Hf Hd. destruct (A f) as [A1 A2]. destruct (sh_sums f d l Hd Hs) as (S1 & S2 & _).
-    unfold cons_q. rewrite D, A1, A2, esum_net_split, esum_pe_split, S1, S2. lia.
+  - intros f. destruct (A f) as [A1 A2].
+    unfold cons_q. rewrite D, A1, A2, esum_net_split, esum_pe_split. lia.
   - destruct (A f1) as [A1 _]. unfold infl_q. rewrite A1, B, C, esum_infl_split.
-    rewrite esum_net_split, esum_pe_split in Hn.
-    assert (Hfr : esum eff_fresh l = 0).
-    { clear -Hs. induction l as [|e l IH]; [reflexivity|]. rewrite sh_cons in Hs. apply andb_true_iff in Hs as [H1 H2].
-      rewrite esum_cons, (IH H2). destruct e; try reflexivity. destruct d0; try reflexivity; cbn in *; [discriminate|].
-      apply negb_true_iff in H1. rewrite H1. reflexivity. }
-    lia.
+    rewrite esum_net_split, esum_pe_split in Hn. pose proof (sh_fresh d l Hs) as Hfr. lia.
 Qed.
 
 (* ---------------------------------------------------------------- taking a message out of a queue *)
@@ -99,21 +114,16 @@ Lemma infl_q_set_bps s b g x : nth_error (g_bps s) b = Some x ->
   infl_q (set_bps s (bp_upd b g (g_bps s))) = infl_q s + bpi_w f1 x - bpi_w f1 (g x).
 Proof. intros H. unfold infl_q, total, unacc. cbn [set_pps set_bps g_q g_pps g_bps g_rbs g_events g_submitted g_inflight]. rewrite (bps_w_upd f1 _ _ _ _ H). lia. Qed.
 
-Lemma sh_false_ra l : sh false l = true -> esum eff_ra l = 0.
-Proof.
-  induction l as [|e l IH]; [reflexivity|]. rewrite sh_cons. intros H. apply andb_true_iff in H as [H1 H2].
-  rewrite esum_cons, (IH H2). destruct e; try reflexivity; cbn in H1; discriminate.
-Qed.
-
 (* ---------------------------------------------------------------- one broker-worker step *)
 
 Lemma run_bp_delta c s b x i : nth_error (g_bps s) b = Some x -> g_panic (run_bp c s b x i) = None ->
-  (forall f, stable f -> data_only f -> cons_q f (run_bp c s b x i) = cons_q f s + in_w f i) /\
+  (forall f, okw f -> exists k, sunk_ok f k /\ cons_q f (run_bp c s b x i) = cons_q f s + in_w f i - k) /\
   infl_q (run_bp c s b x i) = infl_q s - in_w f1 i.
 Proof.
   intros Hx. unfold run_bp.
   pose proof (bp_balance f1 c (g_epoch s) (i_st x) i f1_stable) as Bal1.
   pose proof (bp_shape c (g_epoch s) (i_st x) i) as Shp.
+  pose proof (nn_bp c (g_epoch s) (i_st x) i) as NN.
   assert (BalF : forall f, stable f -> has_crash (snd (bp_step c (g_epoch s) (i_st x) i)) = false ->
      bp_w f (fst (bp_step c (g_epoch s) (i_st x) i)) + esum (eff_net f) (snd (bp_step c (g_epoch s) (i_st x) i)) = bp_w f (i_st x) + in_w f i)
     by (intros; apply bp_balance; assumption).
@@ -121,7 +131,8 @@ Proof.
   intros Hp. pose proof (no_crash_of_no_panic _ _ _ _ Hp) as Hc. specialize (Bal1 Hc). specialize (Shp Hc).
   destruct (effs_delta c (WBp b) _ effs false _ Hp Shp eq_refl) as [D1 D2].
   split.
-  - intros f Hf Hd. rewrite (D1 f Hf Hd), (cons_q_set_bps f s b _ x Hx). specialize (BalF f Hf Hc).
+  - intros f Hw. exists (esum (eff_sink f) effs). split; [apply (sunk_ok_effs f false); [apply Hw|exact Shp]|].
+    rewrite (D1 f), (cons_q_set_bps f s b _ x Hx), (no_new_sum f effs NN). destruct Hw as (Hf & _). specialize (BalF f Hf Hc).
     unfold bpi_w in *. cbn. lia.
   - rewrite D2, (infl_q_set_bps s b _ x Hx). unfold bpi_w. cbn.
     pose proof (sh_false_ra effs Shp) as Hra0. lia.
@@ -129,8 +140,10 @@ Qed.
 
 (* ---------------------------------------------------------------- one partition-worker step *)
 
-Lemma run_pp_delta c s k x m ls : pp_get k (g_pps s) = Some x -> g_panic (run_pp c s k x m ls) = None ->
-  (forall f, stable f -> data_only f -> cons_q f (run_pp c s k x m ls) = cons_q f s + f m) /\
+Lemma run_pp_delta c s k x m ls :
+  (forall f, match pp_get k (g_pps s) with Some y => pp_w f (pr_st y) | None => 0 end = pp_w f (pr_st x)) ->
+  g_panic (run_pp c s k x m ls) = None ->
+  (forall f, okw f -> exists k0 n, sunk_ok f k0 /\ new_ok f n /\ cons_q f (run_pp c s k x m ls) = cons_q f s + f m - k0 + n) /\
   infl_q (run_pp c s k x m ls) = infl_q s - 1.
 Proof.
   intros Hx. unfold run_pp.
@@ -145,8 +158,10 @@ Proof.
   intros Hp. pose proof (no_crash_of_no_panic _ _ _ _ Hp) as Hc. specialize (Bal1 Hc).
   destruct (effs_delta c (WPp k) _ effs false _ Hp Shp eq_refl) as [D1 D2].
   split.
-  - intros f Hf Hd. rewrite (D1 f Hf Hd), cons_q_set_pps, Hx. specialize (BalF f Hf Hc). cbn [pr_st]. lia.
-  - rewrite D2, infl_q_set_pps, Hx, (sh_false_ra effs Shp). cbn [pr_st]. change (f1 m) with 1 in Bal1. lia.
+  - intros f Hw. exists (esum (eff_sink f) effs), (esum (eff_new f) effs).
+    split; [apply (sunk_ok_effs f false); [apply Hw|exact Shp]|]. split; [apply (new_ok_effs f false); [apply Hw|exact Shp]|].
+    rewrite (D1 f), cons_q_set_pps, (Hx f). destruct Hw as (Hf & _). specialize (BalF f Hf Hc). cbn [pr_st]. lia.
+  - rewrite D2, infl_q_set_pps, (Hx f1), (sh_false_ra effs Shp). cbn [pr_st]. change (f1 m) with 1 in Bal1. lia.
 Qed.
 
 (* ---------------------------------------------------------------- every choice *)
@@ -161,47 +176,64 @@ Proof. unfold unacc. intros ->. reflexivity. Qed.
 Ltac cbn_state := cbn [set_q set_disp set_pps set_bps set_rbs add_inflight set_txn add_event add_submitted add_ilog set_flags set_panic
   g_q g_disp g_pps g_bps g_rbs g_inflight g_epoch g_seqs g_events g_submitted g_ilog g_close_req g_woken g_closed g_panic].
 
+Definition close_term (f : msg -> Z) (c : cfg) (s : state) (ch : choice) : Z :=
+  match ch with CAsyncClose => if g_close_req s then 0 else f (shutdown_marker c) | _ => 0 end.
+
+Definition is_pp_choice (ch : choice) : bool := match ch with CPp _ _ _ => true | _ => false end.
+
+Ltac ex00 := exists 0, 0; split; [apply sunk_ok_0|split; [apply new_ok_0|split; [intros _; reflexivity|]]].
+Ltac triv := intros _; split; [intros f Hw; ex00; unfold cons_q, total; cbn_state; cbn [close_term]; lia | reflexivity].
+
 Lemma raw_step_delta c s ch : c_fix_rb c = true -> g_panic (raw_step c s ch) = None ->
-  (forall f, stable f -> data_only f -> cons_q f (raw_step c s ch) = cons_q f s) /\
+  (forall f, okw f -> exists k n, sunk_ok f k /\ new_ok f n /\ (is_pp_choice ch = false -> n = 0) /\
+     cons_q f (raw_step c s ch) = cons_q f s + close_term f c s ch - k + n) /\
   infl_q (raw_step c s ch) = infl_q s.
 Proof.
   intros Hfix. destruct ch; cbn [raw_step].
   - (* CSubmit *)
-    destruct (g_close_req s); [intros _; split; [intros; reflexivity|reflexivity]|]. intros _.
+    destruct (g_close_req s); [triv|]. intros _.
     split.
-    + intros f Hf Hd. unfold cons_q, total. cbn_state. rewrite q_w_push, wsum_app. cbn. lia.
+    + intros f Hw. ex00. unfold cons_q, total. cbn_state. rewrite q_w_push, wsum_app. cbn. lia.
     + unfold infl_q, total. cbn [add_submitted g_inflight g_q g_pps g_bps g_rbs set_q].
       match goal with |- context [unacc ?t] => replace (unacc t) with (unacc (set_q s (q_push DDisp (fresh_of m) (g_q s)))) by reflexivity end.
       rewrite unacc_push, q_w_push. cbn [eff_fresh]. rewrite fresh_un_fresh_of. unfold f1. lia.
   - (* CAsyncClose *)
-    destruct (g_close_req s); [intros _; split; [intros; reflexivity|reflexivity]|]. intros _.
+    destruct (g_close_req s) eqn:Ecr;
+      [intros _; split; [intros f Hw; ex00; cbn [close_term]; rewrite Ecr; lia | reflexivity]|]. intros _.
     split.
-    + intros f Hf Hd. unfold cons_q, total. cbn_state. rewrite q_w_push, (Hd _ (is_data_shutdown c)). lia.
+    + intros f Hw. ex00. cbn [close_term]. rewrite Ecr. unfold cons_q, total. cbn_state. rewrite q_w_push. lia.
     + unfold infl_q, total. cbn [add_inflight set_flags g_inflight g_q g_pps g_bps g_rbs set_q].
       match goal with |- context [unacc ?t] => replace (unacc t) with (unacc (set_q s (q_push DDisp (shutdown_marker c) (g_q s)))) by reflexivity end.
       rewrite unacc_push, q_w_push. cbn [eff_fresh]. rewrite fresh_un_shutdown. unfold f1. lia.
   - (* CDisp *)
-    destruct (pop DDisp s) as [[m s1]|] eqn:Ep; [|intros _; split; [intros; reflexivity|reflexivity]].
+    destruct (pop DDisp s) as [[m s1]|] eqn:Ep; [|triv].
     pose proof (disp_shape c (g_disp s1) m) as [Shp Hra].
+    pose proof (nn_disp c (g_disp s1) m) as NN.
     assert (Bal : forall f, stable f -> esum (eff_net f) (snd (disp_step c (g_disp s1) m)) = f m) by (intros; apply disp_balance; assumption).
     destruct (disp_step c (g_disp s1) m) as [d' effs]. cbn [snd] in *. intros Hp.
     destruct (effs_delta c WOther _ effs true _ Hp Shp eq_refl) as [D1 D2].
     split.
-    + intros f Hf Hd. rewrite (D1 f Hf Hd), (Bal f Hf).
-      change (cons_q f (set_disp s1 d')) with (cons_q f s1). rewrite (cons_q_pop f _ _ _ _ Ep). lia.
+    + intros f Hw. exists (esum (eff_sink f) effs), 0. split; [apply (sunk_ok_effs f true); [apply Hw|exact Shp]|].
+      split; [apply new_ok_0|]. split; [intros _; reflexivity|].
+      rewrite (D1 f), (Bal f (proj1 Hw)), (no_new_sum f effs NN).
+      change (cons_q f (set_disp s1 d')) with (cons_q f s1). rewrite (cons_q_pop f _ _ _ _ Ep). cbn [close_term]. lia.
     + rewrite D2, (Bal f1 f1_stable), Hra.
       change (infl_q (set_disp s1 d')) with (infl_q s1). rewrite (infl_q_pop _ _ _ _ Ep). unfold f1. lia.
   - (* CTp *)
-    destruct (pop (DTopic t) s) as [[m s1]|] eqn:Ep; [|intros _; split; [intros; reflexivity|reflexivity]].
+    destruct (pop (DTopic t) s) as [[m s1]|] eqn:Ep; [|triv].
     intros Hp. destruct (effs_delta c WOther _ (tp_step m) false _ Hp (tp_shape m) eq_refl) as [D1 D2].
     split.
-    + intros f Hf Hd. rewrite (D1 f Hf Hd), (tp_balance f m Hf), (cons_q_pop f _ _ _ _ Ep). lia.
+    + intros f Hw. exists (esum (eff_sink f) (tp_step m)), 0. split; [apply (sunk_ok_effs f false); [apply Hw|apply tp_shape]|].
+      split; [apply new_ok_0|]. split; [intros _; reflexivity|].
+      rewrite (D1 f), (tp_balance f m (proj1 Hw)), (cons_q_pop f _ _ _ _ Ep), (no_new_sum f _ (nn_tp m)). cbn [close_term]. lia.
     + rewrite D2, (tp_balance f1 m f1_stable), (sh_false_ra _ (tp_shape m)), (infl_q_pop _ _ _ _ Ep). unfold f1. lia.
   - (* CPp *)
-    destruct (pop (DPart t p) s) as [[m s1]|] eqn:Ep; [|intros _; split; [intros; reflexivity|reflexivity]].
+    destruct (pop (DPart t p) s) as [[m s1]|] eqn:Ep; [|triv].
     destruct (pp_get (t, p) (g_pps s1)) as [x|] eqn:Ex.
-    + intros Hp. destruct (run_pp_delta c s1 (t, p) x m ls Ex Hp) as [D1 D2]. split.
-      * intros f Hf Hd. rewrite (D1 f Hf Hd), (cons_q_pop f _ _ _ _ Ep). lia.
+    + intros Hp. assert (Hx : forall f, match pp_get (t, p) (g_pps s1) with Some y => pp_w f (pr_st y) | None => 0 end = pp_w f (pr_st x)) by (intros; rewrite Ex; reflexivity).
+      destruct (run_pp_delta c s1 (t, p) x m ls Hx Hp) as [D1 D2]. split.
+      * intros f Hw. destruct (D1 f Hw) as (k & n & Hk & Hn & E). exists k, n. split; [exact Hk|]. split; [exact Hn|]. split; [discriminate|].
+        rewrite E, (cons_q_pop f _ _ _ _ Ep). cbn [close_term]. lia.
       * rewrite D2, (infl_q_pop _ _ _ _ Ep). lia.
     + destruct (next_lres ls) as [l0 ls'].
       destruct (pp_init_balance f1 c t p l0) as (I1 & I2 & I3).
@@ -211,104 +243,190 @@ Proof.
       destruct (pp_init c t p l0) as [st0 effs0]. cbn [fst snd] in *.
       set (s2 := set_pps s1 (pp_set (t, p) (mkPpr st0 None) (g_pps s1))).
       set (s3 := apply_effs c (WPp (t, p)) s2 effs0).
-      assert (H23 : g_panic s3 = None -> (forall f, stable f -> data_only f -> cons_q f s3 = cons_q f s1) /\ infl_q s3 = infl_q s1).
+      assert (H23 : g_panic s3 = None ->
+                (forall f, cons_q f s3 = cons_q f s1 - esum (eff_sink f) effs0 + esum (eff_new f) effs0) /\ infl_q s3 = infl_q s1).
       { intros Hp3. destruct (effs_delta c (WPp (t, p)) s2 effs0 false _ Hp3 Shp0 eq_refl) as [D1 D2]. fold s3 in D1, D2. split.
-        - intros f Hf Hd. rewrite (D1 f Hf Hd). destruct (IF f) as [A B]. rewrite A. subst s2. rewrite cons_q_set_pps, Ex. cbn [pr_st]. lia.
+        - intros f. rewrite (D1 f). destruct (IF f) as [A B]. rewrite A. subst s2. rewrite cons_q_set_pps, Ex. cbn [pr_st]. lia.
         - rewrite D2, I1, (sh_false_ra _ Shp0). subst s2. rewrite infl_q_set_pps, Ex. cbn [pr_st]. lia. }
-      destruct (pp_get (t, p) (g_pps s3)) as [x|] eqn:Ex3.
-      * intros Hp. assert (Hp3 : g_panic s3 = None).
-        { destruct (g_panic s3) eqn:E3; [|reflexivity]. exfalso.
-          unfold run_pp in Hp. destruct (pp_step _ _ _ _ _ _ _ _) as [st' effs].
-          apply (apply_effs_sticky c (WPp (t, p)) effs (set_pps s3 (pp_set (t, p) (mkPpr st' (pr_h x)) (g_pps s3)))); [cbn; rewrite E3; discriminate|exact Hp]. }
-        destruct (H23 Hp3) as [A3 B3]. destruct (run_pp_delta c s3 (t, p) x m ls' Ex3 Hp) as [D1 D2]. split.
-        -- intros f Hf Hd. rewrite (D1 f Hf Hd), (A3 f Hf Hd), (cons_q_pop f _ _ _ _ Ep). lia.
-        -- rewrite D2, B3, (infl_q_pop _ _ _ _ Ep). lia.
-      * (* unreachable: the record was just created; the message would be lost, so demand nothing false *)
-        intros Hp. exfalso. clear -Ex3 s3. subst s3 s2.
-        assert (G : forall l s0, pp_get (t, p) (g_pps s0) <> None -> pp_get (t, p) (g_pps (apply_effs c (WPp (t, p)) s0 l)) <> None).
-        { induction l as [|e l IH]; intros s0 H0; [exact H0|]. cbn [apply_effs fold_left]. apply IH.
-          assert (SH : forall s9 h, pp_get (t, p) (g_pps s9) <> None -> pp_get (t, p) (g_pps (set_handle s9 (WPp (t, p)) h)) <> None).
-          { intros s9 h H9. unfold set_handle. destruct (pp_get (t, p) (g_pps s9)) eqn:E9; [|exact H9]. cbn.
-            clear -E9. induction (g_pps s9) as [|[k' y] r IHr]; [discriminate|]. cbn in *.
-            destruct (tpk_eqb (t, p) k') eqn:Ek; cbn; rewrite Ek; [discriminate|apply IHr, E9]. }
-          destruct e; cbn [apply_eff]; try exact H0.
-          - destruct d; try exact H0. destruct (handle_of s0 _); [|exact H0]. destruct (nth_error _ _); [|exact H0]. destruct (i_in_closed _); exact H0.
-          - unfold emit. destruct (g_closed s0); destruct (m_hasseq m0); exact H0.
-          - unfold emit. destruct (g_closed s0); exact H0.
-          - unfold emit. destruct (g_closed s0); exact H0.
-          - destruct (handle_of s0 _); [|exact H0]. apply SH. exact H0.
-          - unfold get_bp. destruct (find_reg broker (g_bps s0) 0%nat); apply SH; exact H0.
-          - destruct (find_reg broker (g_bps s0) 0%nat); exact H0.
-          - destruct (nth_error (g_bps s0) _); exact H0.
-          - unfold get_bp. destruct (find_reg broker (g_bps s0) 0%nat); exact H0. }
-        apply (G effs0 (set_pps s1 (pp_set (t, p) (mkPpr st0 None) (g_pps s1)))); [|exact Ex3].
-        cbn. clear. induction (g_pps s1) as [|[k' y] r IHr]; cbn; [rewrite !Z.eqb_refl; discriminate|].
-        destruct (tpk_eqb (t, p) k') eqn:Ek; cbn; rewrite Ek; [discriminate|exact IHr].
+      set (x := match pp_get (t, p) (g_pps s3) with Some x => x | None => mkPpr st0 None end).
+      intros Hp. assert (Hp3 : g_panic s3 = None).
+      { destruct (g_panic s3) eqn:E3; [|reflexivity]. exfalso.
+        unfold run_pp in Hp. destruct (pp_step _ _ _ _ _ _ _ _) as [st' effs].
+        apply (apply_effs_sticky c (WPp (t, p)) effs (set_pps s3 (pp_set (t, p) (mkPpr st' (pr_h x)) (g_pps s3)))); [cbn; rewrite E3; discriminate|exact Hp]. }
+      destruct (H23 Hp3) as [A3 B3].
+      assert (Hx : forall f, match pp_get (t, p) (g_pps s3) with Some y => pp_w f (pr_st y) | None => 0 end = pp_w f (pr_st x)).
+      { intros f. subst x. destruct (pp_get (t, p) (g_pps s3)); [reflexivity|]. cbn [pr_st]. destruct (IF f) as [_ B]. lia. }
+      destruct (run_pp_delta c s3 (t, p) x m ls' Hx Hp) as [D1 D2]. split.
+      * intros f Hw. destruct (D1 f Hw) as (k & n & Hk & Hn & E). exists (esum (eff_sink f) effs0 + k), (esum (eff_new f) effs0 + n).
+        split; [apply sunk_ok_add; [apply (sunk_ok_effs f false); [apply Hw|exact Shp0]|exact Hk]|].
+        split; [apply new_ok_add; [apply (new_ok_effs f false); [apply Hw|exact Shp0]|exact Hn]|]. split; [discriminate|].
+        rewrite E, (A3 f), (cons_q_pop f _ _ _ _ Ep). cbn [close_term]. lia.
+      * rewrite D2, B3, (infl_q_pop _ _ _ _ Ep). lia.
   - (* CBpRecv *)
-    destruct (nth_error (g_bps s) b) as [x|] eqn:Ex; [|intros _; split; [intros; reflexivity|reflexivity]].
-    destruct (flush_poll (i_st x)); [|intros _; split; [intros; reflexivity|reflexivity]].
+    destruct (nth_error (g_bps s) b) as [x|] eqn:Ex; [|triv].
+    destruct (flush_poll (i_st x)); [|triv].
     destruct (pop (DBp b) s) as [[m s1]|] eqn:Ep.
     + assert (Ex1 : nth_error (g_bps s1) b = Some x).
       { destruct (pop_spec _ _ _ _ Ep) as (_ & _ & _ & _ & _ & _ & Hb & _). rewrite Hb. exact Ex. }
       intros Hp. destruct (run_bp_delta c s1 b x (BRecv m) Ex1 Hp) as [D1 D2]. cbn [in_w] in *. split.
-      * intros f Hf Hd. rewrite (D1 f Hf Hd), (cons_q_pop f _ _ _ _ Ep). lia.
+      * intros f Hw. destruct (D1 f Hw) as (k & Hk & E). exists k, 0. split; [exact Hk|]. split; [apply new_ok_0|]. split; [intros _; reflexivity|]. rewrite E, (cons_q_pop f _ _ _ _ Ep). cbn [close_term]. lia.
       * rewrite D2, (infl_q_pop _ _ _ _ Ep). unfold f1. lia.
-    + destruct (i_in_closed x); [|intros _; split; [intros; reflexivity|reflexivity]].
+    + destruct (i_in_closed x); [|triv].
       intros Hp. destruct (run_bp_delta c s b x BClosed Ex Hp) as [D1 D2]. cbn [in_w] in *. split.
-      * intros f Hf Hd. rewrite (D1 f Hf Hd). lia.
+      * intros f Hw. destruct (D1 f Hw) as (k & Hk & E). exists k, 0. split; [exact Hk|]. split; [apply new_ok_0|]. split; [intros _; reflexivity|]. rewrite E. cbn [close_term]. lia.
       * rewrite D2. lia.
   - (* CBpTimer *)
-    destruct (nth_error (g_bps s) b) as [x|] eqn:Ex; [|intros _; split; [intros; reflexivity|reflexivity]].
+    destruct (nth_error (g_bps s) b) as [x|] eqn:Ex; [|triv].
     intros Hp. destruct (run_bp_delta c s b x BTimer Ex Hp) as [D1 D2]. cbn [in_w] in *. split.
-    + intros f Hf Hd. rewrite (D1 f Hf Hd). lia.
+    + intros f Hw. destruct (D1 f Hw) as (k & Hk & E). exists k, 0. split; [exact Hk|]. split; [apply new_ok_0|]. split; [intros _; reflexivity|]. rewrite E. cbn [close_term]. lia.
     + rewrite D2. lia.
   - (* CBpFlush *)
-    destruct (nth_error (g_bps s) b) as [x|] eqn:Ex; [|intros _; split; [intros; reflexivity|reflexivity]].
+    destruct (nth_error (g_bps s) b) as [x|] eqn:Ex; [|triv].
     intros Hp. destruct (run_bp_delta c s b x BFlush Ex Hp) as [D1 D2]. cbn [in_w] in *. split.
-    + intros f Hf Hd. rewrite (D1 f Hf Hd). lia.
+    + intros f Hw. destruct (D1 f Hw) as (k & Hk & E). exists k, 0. split; [exact Hk|]. split; [apply new_ok_0|]. split; [intros _; reflexivity|]. rewrite E. cbn [close_term]. lia.
     + rewrite D2. lia.
   - (* CBridge *)
-    destruct (nth_error (g_bps s) b) as [x|] eqn:Ex; [|intros _; split; [intros; reflexivity|reflexivity]].
-    destruct (i_infl x) eqn:Ei; [intros _; split; [intros; reflexivity|reflexivity]|].
-    destruct (i_bridge x) as [|st r] eqn:Eb; [intros _; split; [intros; reflexivity|reflexivity]|].
+    destruct (nth_error (g_bps s) b) as [x|] eqn:Ex; [|triv].
+    destruct (i_infl x) eqn:Ei; [triv|].
+    destruct (i_bridge x) as [|st r] eqn:Eb; [triv|].
     intros _. split.
-    + intros f Hf Hd. rewrite (cons_q_set_bps f s b _ x Ex). unfold bpi_w. cbn. rewrite Ei, Eb. cbn. lia.
+    + intros f Hw. ex00. rewrite (cons_q_set_bps f s b _ x Ex). unfold bpi_w. cbn. rewrite Ei, Eb. cbn. lia.
     + rewrite (infl_q_set_bps s b _ x Ex). unfold bpi_w. cbn. rewrite Ei, Eb. cbn. lia.
   - (* CAnswer *)
-    destruct (nth_error (g_bps s) b) as [x|] eqn:Ex; [|intros _; split; [intros; reflexivity|reflexivity]].
-    destruct (i_infl x) as [st|] eqn:Ei; [|intros _; split; [intros; reflexivity|reflexivity]].
+    destruct (nth_error (g_bps s) b) as [x|] eqn:Ex; [|triv].
+    destruct (i_infl x) as [st|] eqn:Ei; [|triv].
     intros _. split.
-    + intros f Hf Hd. rewrite (cons_q_set_bps f s b _ x Ex). unfold bpi_w. cbn. rewrite Ei, resps_w_app. cbn. lia.
+    + intros f Hw. ex00. rewrite (cons_q_set_bps f s b _ x Ex). unfold bpi_w. cbn. rewrite Ei, resps_w_app. cbn. lia.
     + rewrite (infl_q_set_bps s b _ x Ex). unfold bpi_w. cbn. rewrite Ei, resps_w_app. cbn. lia.
   - (* CBpResp *)
-    destruct (nth_error (g_bps s) b) as [x|] eqn:Ex; [|intros _; split; [intros; reflexivity|reflexivity]].
-    destruct (i_resp x) as [|[st r] rest] eqn:Er; [intros _; split; [intros; reflexivity|reflexivity]|].
+    destruct (nth_error (g_bps s) b) as [x|] eqn:Ex; [|triv].
+    destruct (i_resp x) as [|[st r] rest] eqn:Er; [triv|].
     set (s1 := set_bps s (bp_upd b (fun y => bi_with_bridge y (i_bridge y) (i_infl y) rest) (g_bps s))).
     assert (Ex1 : nth_error (g_bps s1) b = Some (bi_with_bridge x (i_bridge x) (i_infl x) rest))
-      by (subst s1; cbn; apply nth_error_bp_upd_same, Ex).
+      by (subst s1; exact (nth_error_bp_upd_same b (fun y => bi_with_bridge y (i_bridge y) (i_infl y) rest) (g_bps s) x Ex)).
     rewrite Ex1. intros Hp.
     destruct (run_bp_delta c s1 b _ (BResp st r) Ex1 Hp) as [D1 D2]. cbn [in_w] in *. split.
-    + intros f Hf Hd. rewrite (D1 f Hf Hd). subst s1. rewrite (cons_q_set_bps f s b _ x Ex). unfold bpi_w. cbn. rewrite Er. cbn. lia.
+    + intros f Hw. destruct (D1 f Hw) as (k & Hk & E). exists k, 0. split; [exact Hk|]. split; [apply new_ok_0|]. split; [intros _; reflexivity|]. rewrite E. subst s1.
+      rewrite (cons_q_set_bps f s b _ x Ex). unfold bpi_w. cbn. rewrite Er. cbn. lia.
     + rewrite D2. subst s1. rewrite (infl_q_set_bps s b _ x Ex). unfold bpi_w. cbn. rewrite Er. cbn. lia.
   - (* CRb *)
-    destruct (nth_error (g_rbs s) i) as [tk|] eqn:Ei; [|intros _; split; [intros; reflexivity|reflexivity]].
+    destruct (nth_error (g_rbs s) i) as [tk|] eqn:Ei; [|triv].
     intros Hp.
     pose proof (rb_shape c (g_epoch s) (rb_k tk) (rb_ms tk) (rb_e tk) l) as Shp.
     destruct (effs_delta c WOther _ _ false _ Hp Shp eq_refl) as [D1 D2].
     split.
-    + intros f Hf Hd. rewrite (D1 f Hf Hd). destruct (rb_balance f c (g_epoch s) (rb_k tk) (rb_ms tk) (rb_e tk) l Hf Hfix) as [A _].
-      rewrite A. unfold cons_q, total. cbn_state. rewrite (rbs_w_remove f _ _ _ Ei). lia.
+    + intros f Hw. exists (esum (eff_sink f) (rb_step c (g_epoch s) (rb_k tk) (rb_ms tk) (rb_e tk) l)), 0.
+      split; [apply (sunk_ok_effs f false); [apply Hw|exact Shp]|]. split; [apply new_ok_0|]. split; [intros _; reflexivity|].
+      rewrite (D1 f), (no_new_sum f _ (nn_rb c (g_epoch s) (rb_k tk) (rb_ms tk) (rb_e tk) l)). destruct (rb_balance f c (g_epoch s) (rb_k tk) (rb_ms tk) (rb_e tk) l (proj1 Hw) Hfix) as [A _].
+      rewrite A. unfold cons_q, total. cbn_state. rewrite (rbs_w_remove f _ _ _ Ei). cbn [close_term]. lia.
     + rewrite D2. destruct (rb_balance f1 c (g_epoch s) (rb_k tk) (rb_ms tk) (rb_e tk) l f1_stable Hfix) as [A _].
       rewrite A, (sh_false_ra _ Shp). unfold infl_q, total, unacc. cbn_state. rewrite (rbs_w_remove f1 _ _ _ Ei). lia.
   - (* CRetry *)
-    destruct (pop DRetry s) as [[m s1]|] eqn:Ep; [|intros _; split; [intros; reflexivity|reflexivity]].
+    destruct (pop DRetry s) as [[m s1]|] eqn:Ep; [|triv].
     intros _. split.
-    + intros f Hf Hd. unfold cons_q, total. cbn_state. rewrite q_w_push.
-      pose proof (cons_q_pop f _ _ _ _ Ep) as H. unfold cons_q, total in H. lia.
+    + intros f Hw. ex00. unfold cons_q, total. cbn_state. rewrite q_w_push.
+      pose proof (cons_q_pop f _ _ _ _ Ep) as H. unfold cons_q, total in H. cbn [close_term]. lia.
     + unfold infl_q, total. cbn [set_q g_inflight g_q g_pps g_bps g_rbs]. rewrite unacc_push, q_w_push.
       pose proof (infl_q_pop _ _ _ _ Ep) as H. unfold infl_q, total in H. cbn [eff_fresh]. unfold f1 in *. lia.
   - (* CShutWake *)
-    intros _. destruct (g_close_req s && negb (g_woken s) && (g_inflight s =? 0)); split; intros; reflexivity.
+    destruct (g_close_req s && negb (g_woken s) && (g_inflight s =? 0)); triv.
   - (* CShutClose *)
-    intros _. destruct (g_woken s && negb (g_closed s)); split; intros; reflexivity.
+    destruct (g_woken s && negb (g_closed s)); triv.
 Qed.
+
+(* ---------------------------------------------------------------- all schedules *)
+
+Lemma step_delta c s ch : c_fix_rb c = true ->
+  (forall f, okw f -> exists k n, sunk_ok f k /\ new_ok f n /\ (is_pp_choice ch = false -> n = 0) /\
+     cons_q f (step c s ch) = cons_q f s + (match g_panic s, g_panic (raw_step c s ch) with None, None => close_term f c s ch | _, _ => 0 end) - k + n) /\
+  infl_q (step c s ch) = infl_q s.
+Proof.
+  intros Hfix. unfold step. destruct (g_panic s); [split; [intros f Hw; ex00; lia|reflexivity]|].
+  destruct (g_panic (raw_step c s ch)) eqn:E.
+  - split; [intros f Hw; ex00; change (cons_q f (set_panic s z)) with (cons_q f s); lia|reflexivity].
+  - apply raw_step_delta; assumption.
+Qed.
+
+Lemma data_only_okw f : stable f -> nonneg f -> okw f.
+Proof. intros A C. split; assumption. Qed.
+
+Theorem invariants c : c_fix_rb c = true -> forall sched,
+  (forall f, stable f -> data_only f -> nonneg f -> cons_q f (run c sched) = 0) /\ infl_q (run c sched) = 0.
+Proof.
+  intros Hfix sched. unfold run.
+  assert (G : forall l s, ((forall f, stable f -> data_only f -> nonneg f -> cons_q f s = 0) /\ infl_q s = 0) ->
+              (forall f, stable f -> data_only f -> nonneg f -> cons_q f (fold_left (step c) l s) = 0) /\ infl_q (fold_left (step c) l s) = 0).
+  { induction l as [|ch l IH]; intros s Hs; [exact Hs|]. cbn [fold_left]. apply IH.
+    destruct (step_delta c s ch Hfix) as [A B]. destruct Hs as [Hs1 Hs2]. split.
+    - intros f Hf Hd Hn. destruct (A f (data_only_okw f Hf Hn)) as (k & n & [_ Hk] & [_ Hnn] & _ & E).
+      rewrite E, (Hk Hd), (Hnn (data_only_marker_free f Hd)), (Hs1 f Hf Hd Hn).
+      destruct (g_panic s); [lia|]. destruct (g_panic (raw_step c s ch)); [lia|].
+      destruct ch; cbn [close_term]; try lia. destruct (g_close_req s); [lia|]. rewrite (Hd _ (is_data_shutdown c)). lia.
+    - rewrite B. exact Hs2. }
+  apply G. split; [intros; reflexivity|reflexivity].
+Qed.
+
+(* ---------------------------------------------------------------- the statements about identities *)
+
+(* number of copies of application message [i] *)
+Definition idw (i : Z) : msg -> Z := fun m => if is_data m && (m_id m =? i) then 1 else 0.
+Lemma idw_stable i : stable (idw i).
+Proof. intros m m' H1 H2. unfold idw, is_data. rewrite H1, H2. reflexivity. Qed.
+Lemma idw_nonneg i : nonneg (idw i). Proof. intros m. unfold idw. destruct (is_data m && (m_id m =? i)); lia. Qed.
+Lemma idw_data_only i : data_only (idw i).
+Proof. intros m H. unfold idw. rewrite H. reflexivity. Qed.
+
+Definition tokens (i : Z) (s : state) : Z := total (idw i) s.           (* copies of i held anywhere in the pipeline *)
+Definition outcomes (i : Z) (s : state) : Z := evs_w (idw i) (g_events s).  (* terminal events naming i *)
+Definition submissions (i : Z) (s : state) : Z := wsum (idw i) (g_submitted s).
+
+Theorem conservation c : c_fix_rb c = true -> forall sched i,
+  tokens i (run c sched) + outcomes i (run c sched) = submissions i (run c sched).
+Proof.
+  intros Hfix sched i. destruct (invariants c Hfix sched) as [A _].
+  specialize (A (idw i) (idw_stable i) (idw_data_only i) (idw_nonneg i)). unfold cons_q in A. unfold tokens, outcomes, submissions. lia.
+Qed.
+
+(* non-negativity *)
+Lemma wsum_nonneg f l : (forall m, 0 <= f m) -> 0 <= wsum f l.
+Proof. intros H. induction l as [|m l IH]; simpl; [lia|]. specialize (H m). lia. Qed.
+Lemma parts_w_nonneg f ps : (forall m, 0 <= f m) -> 0 <= parts_w f ps.
+Proof. intros H. induction ps as [|[k l] r IH]; simpl; [lia|]. pose proof (wsum_nonneg f l H). lia. Qed.
+Lemma total_nonneg f s : (forall m, 0 <= f m) -> 0 <= total f s.
+Proof.
+  intros H. unfold total.
+  assert (A : 0 <= q_w f (g_q s)) by (induction (g_q s) as [|[d l] r IH]; simpl; [lia|]; pose proof (wsum_nonneg f l H); lia).
+  assert (B : 0 <= pps_w f (g_pps s)).
+  { induction (g_pps s) as [|[k x] r IH]; simpl; [lia|]. unfold pp_w.
+    assert (0 <= levels_w f (p_levels (pr_st x))) by (induction (p_levels (pr_st x)) as [|l r' IH']; simpl; [lia|]; pose proof (wsum_nonneg f (l_buf l) H); lia). lia. }
+  assert (S : forall l, 0 <= sets_w f l) by (induction l as [|x r IH]; simpl; [lia|]; pose proof (parts_w_nonneg f (s_parts x) H); unfold set_w; lia).
+  assert (R : forall l, 0 <= resps_w f l) by (induction l as [|[x y] r IH]; simpl; [lia|]; pose proof (parts_w_nonneg f (s_parts x) H); unfold set_w; lia).
+  assert (C : 0 <= bps_w f (g_bps s)).
+  { induction (g_bps s) as [|x r IH]; simpl; [lia|]. unfold bpi_w, bp_w, set_w.
+    pose proof (parts_w_nonneg f (s_parts (b_buf (i_st x))) H). pose proof (S (i_bridge x)). pose proof (R (i_resp x)).
+    assert (0 <= wait_w f (b_wait (i_st x))) by (destruct (b_wait (i_st x)); simpl; try lia; apply H).
+    assert (0 <= match i_infl x with Some s0 => parts_w f (s_parts s0) | None => 0 end) by (destruct (i_infl x); [apply parts_w_nonneg, H|lia]).
+    lia. }
+  assert (D : 0 <= rbs_w f (g_rbs s)) by (induction (g_rbs s) as [|x r IH]; simpl; [lia|]; pose proof (wsum_nonneg f (rb_ms x) H); lia).
+  lia.
+Qed.
+Lemma evs_w_nonneg f l : (forall m, 0 <= f m) -> 0 <= evs_w f l.
+Proof. intros H. induction l as [|e l IH]; simpl; [lia|]. specialize (H (ev_msg e)). lia. Qed.
+
+(* never more outcomes than submissions; none for a message that was not submitted *)
+Corollary outcomes_le_submissions c : c_fix_rb c = true -> forall sched i,
+  0 <= outcomes i (run c sched) <= submissions i (run c sched).
+Proof.
+  intros Hfix sched i. pose proof (conservation c Hfix sched i) as H.
+  pose proof (total_nonneg (idw i) (run c sched) (idw_nonneg i)). unfold tokens in H.
+  pose proof (evs_w_nonneg (idw i) (g_events (run c sched)) (idw_nonneg i)). unfold outcomes in *. lia.
+Qed.
+
+(* the counter *)
+Theorem inflight_exact c : c_fix_rb c = true -> forall sched,
+  g_inflight (run c sched) = total f1 (run c sched) - unacc (run c sched).
+Proof. intros Hfix sched. destruct (invariants c Hfix sched) as [_ B]. unfold infl_q in B. lia. Qed.
+
+Theorem conservation_general c : c_fix_rb c = true -> forall sched f, stable f -> data_only f -> nonneg f ->
+  total f (run c sched) + evs_w f (g_events (run c sched)) = wsum f (g_submitted (run c sched)).
+Proof. intros H sched f Hf Hd Hn. generalize (proj1 (invariants c H sched) f Hf Hd Hn). unfold cons_q. lia. Qed.
